@@ -32,8 +32,12 @@ RECURSIVE FirstRaise(_, _)
 FirstRaise(os, i) == IF i > Len(os) THEN 0 ELSE IF ~os[i].ok THEN i ELSE FirstRaise(os, i + 1)
 RECURSIVE ExOf(_, _)
 ExOf(os, i) == IF i > Len(os) THEN {} ELSE os[i].ex \cup ExOf(os, i + 1)
+\* an argument whose own value defines a group name twice (Enclose(x, Capture(y, 'n')), EnclosedBy(x, Capture(y, 'n')), ...) can never
+\* be part of a valid pattern: whatever is built from it has no specified outcome ("*" in ex marks it)
+Tainted(o) == "*" \in o.ex \/ (o.ok /\ ~IsBad(o.v) /\ ~NamesUnique(o.v))
 Strict(os, call) ==
-  IF FirstRaise(os, 1) # 0 THEN [os[FirstRaise(os, 1)] EXCEPT !.ex = @ \cup ExOf(os, 1)]
+  IF \E i \in 1..Len(os) : Tainted(os[i]) THEN [ok |-> FALSE, v |-> Eps, ex |-> {"*"}]
+  ELSE IF FirstRaise(os, 1) # 0 THEN [os[FirstRaise(os, 1)] EXCEPT !.ex = @ \cup ExOf(os, 1)]
   ELSE [call EXCEPT !.ex = @ \cup ExOf(os, 1)]
 
 RECURSIVE EvalT(_), EvalArgs(_, _)
@@ -106,7 +110,7 @@ tvars == <<win, cur, d, res, l>>
 StateOf(k) ==
   LET t == Terms[k]
       o == EvalT(t)
-      judged == ~Unspec(t) /\ (o.ok => (~IsBad(o.v) /\ NamesUnique(o.v)))
+      judged == ~Unspec(t) /\ "*" \notin o.ex /\ (o.ok => (~IsBad(o.v) /\ NamesUnique(o.v)))
   IN [cur |-> [t |-> t, v |-> o.v],
       res |-> IF judged THEN Expect(o, {}) ELSE [Expect(OkO(Eps), {"unspecified"}) EXCEPT !.ex = {"*"}]]
 
